@@ -15,6 +15,14 @@ class AnalysisError(Exception):
     budget exhausted).  Reported as ANALYSIS-ERROR, exit 2 - never a pass."""
 
 
+class ImportRaises(AnalysisError):
+    """Abstract import found that a module's top-level statement raises on every path: the package cannot be
+    imported.  A decided fact about the code, reported as a violation by every check (rule IMPORT)."""
+    def __init__(self, msg, exc=None, site=None):
+        AnalysisError.__init__(self, msg)
+        self.exc, self.site = exc, site
+
+
 def repo_root():
     return os.environ.get("VERIF_REPO", "/repo")
 
